@@ -15,6 +15,7 @@ from ..anf import Rat, sym
 from ..guards import G, TRUE, g_and, g_not, g_equiv, g_implies, g_sat, compare, canon_sign, OPS
 from ..gvn import Obj, PW, Vec, cases_of, Unsupported
 from ..ref import ref
+from ..model import norm_text
 from .common import section, RuleCtx, judge, _short
 
 METRIC_REFS = {
@@ -348,7 +349,58 @@ def run(ctx):
     res.not_decided += ["floating-point rounding error of the closed forms", "value of r2 on constant y (tss == 0) beyond being selected only then"]
     from .common import hidden_state as _hidden_state
     _hidden_state(rc, "H1", sorted(INT_SHAPES), "metrics and fit helpers")
+    section(rc, _enum_typing)
     res.require_instances("C16 programs compared", programs, 30)
+
+
+_JIT_DECOS = ("jit", "njit", "numba.jit", "numba.njit", "nb.jit", "nb.njit")
+_PLAIN_ENUM_BASES = {"enum.Enum", "Enum", "enum.IntEnum", "IntEnum"}
+_DATA_MIXINS = {"str", "int", "float", "bytes", "complex", "bool"}
+
+
+def _enum_typing(rc: RuleCtx):
+    """M-enum: the assumption '@jit preserves the Python meaning of the body' for selector arguments.  numba types an argument by
+    single dispatch on its class: a member of `class R2(enum.Enum)` is an EnumMember and `r2 is R2.adjusted` is decided at run time
+    by identity, but a member of `class R2(str, enum.Enum)` (any data-type mix-in in front of Enum) is typed as the mix-in - a plain
+    string / integer - and the comparison with the enum constant is folded to False when the function is compiled: the selected branch
+    is silently never taken.  Confirmed against the installed numba (typeof).  Decided on the class statements of every enum whose
+    members a compiled function names."""
+    res = rc.res
+    res.rule("M-enum", "every Enum class whose members a numba-compiled function compares against derives from enum.Enum / enum.IntEnum alone "
+             "(a str / int / float mix-in makes numba type the argument as the mix-in and fold `arg is Class.member` to a constant)")
+    classes = {}
+    for mod in rc.ctx.repo.package_modules():
+        for st in mod.tree.body:
+            if isinstance(st, ast.ClassDef):
+                bases = [norm_text(b) for b in st.bases]
+                if any(b.split(".")[-1] in ("Enum", "IntEnum", "Flag", "IntFlag", "StrEnum") for b in bases):
+                    members = {t.id for a in st.body if isinstance(a, ast.Assign) for t in a.targets if isinstance(t, ast.Name)}
+                    classes[st.name] = (mod, st, bases, members)
+    used = {}
+    for mod in rc.ctx.repo.package_modules():
+        for fn in ast.walk(mod.tree):
+            if not isinstance(fn, (ast.FunctionDef, ast.AsyncFunctionDef)):
+                continue
+            if not any(norm_text(d).startswith(_JIT_DECOS) for d in fn.decorator_list):
+                continue
+            for a in ast.walk(fn):
+                if isinstance(a, ast.Attribute) and isinstance(a.ctx, ast.Load):
+                    owner = a.value.id if isinstance(a.value, ast.Name) else (a.value.attr if isinstance(a.value, ast.Attribute) else None)
+                    if owner in classes and a.attr in classes[owner][3]:
+                        used.setdefault(owner, []).append(f"{mod.short}.{fn.name}")
+    for name, sites in sorted(used.items()):
+        mod, st, bases, _m = classes[name]
+        mix = [b for b in bases if b in _DATA_MIXINS]
+        if mix:
+            res.violation("M-enum", mod, name, st,
+                          f"enum {name} mixes in {', '.join(mix)}: numba types its members as {mix[0]} values, so the member tests compiled into "
+                          f"{', '.join(sorted(set(sites)))} are folded to constants and the selected variant is never applied",
+                          f"class {name}({', '.join(bases)})", f"class {name}(enum.Enum)", construct=f"enum bases {name}")
+        elif all(b in _PLAIN_ENUM_BASES for b in bases) and len(bases) == 1:
+            res.ok("M-enum", f"{mod.short}.{name}", f"bases {bases}; members compared inside {sorted(set(sites))}")
+        else:
+            res.error(f"M-enum: enum {name} has bases {bases}; how numba types its members is not tabled (used in {sorted(set(sites))})")
+    res.require_instances("M-enum enum classes used by compiled functions", len(used), 1)
 
 
 def norm_ends(node, suffix: str) -> bool:
